@@ -1,8 +1,8 @@
 HOOKS = {
     "guard": "verif",
-    "enable": "go build -tags verif (bin/check builds harness/cmd/vdrive with -tags verif against /repo's working tree)",
+    "enable": "none needed: no hook remains in /repo. The registry hook of commit 2c3dbc0 (guard 'verif') was taken out again by commit aaccf78 once the registry was validated from call/return stamps taken outside the library; bin/check still passes -tags verif when it builds harness/cmd/vdrive against /repo's working tree, which selects nothing",
     "baseline_off_cmd": "cd /repo && GOFLAGS=-mod=mod GOPROXY=off GOSUMDB=off go test -vet=off -count=1 ./...",
-    "source_commits": ["2c3dbc0"],
+    "source_commits": ["2c3dbc0", "aaccf78"],
     "add_only": True,
 }
 NOTES = ("All checks: bin/check <id> --tier quick|thorough; exit 0 held / 1 VIOLATION / 2 machinery failure (no verdict). "
@@ -31,8 +31,8 @@ CHECKS["C11"] = {
     "technique": MBT,
 }
 CHECKS["C12"] = {
-    "text": "Properties are modelled as one key-to-value map per owner (table, columns incl. column 0, rows, cells, header cells, by-value cell copies, column handles that denote their column for ever); TLC explores all interleavings of set / set-nil / copy / take-handle / grow-past-capacity over type-distinct keys within the bounds and checks owner independence as an action property; every transition and seeded random longer histories run on the real library, where after each step GetProperty of every live owner x every key of the universe (11 keys: equal values of distinct types, struct types, pointers, the library's own keys) is compared with the model as a set, and the printed chain length of every cell is bounded by its number of keys.",
-    "note": "Trusted: the driver's key/value universe and owner enumeration; chain length parsed from %#v. Histories beyond the bounds are sampled.",
+    "text": "Properties are modelled as one key-to-value map per owner (table, columns incl. column 0, rows, cells, header cells, by-value cell copies, column handles that denote their column for ever); TLC explores all interleavings of set / set-nil / copy / take-handle / grow-past-capacity over type-distinct keys within the bounds and checks owner independence as an action property; every transition and seeded random longer histories run on the real library, where after each step GetProperty of every live owner x every key of the universe (11 keys: equal values of distinct types, struct types, pointers, the library's own keys) is compared with the model as a set, and the stored state of every owner (tables, columns, rows, cells, header cells, copies) is bounded by its number of keys (plus the renderers' three private keys once a text or markdown wrapper exists). PropsChain.tla is an implementation-shaped model of the linked chain (shared links after a by-value copy) refined against the abstract maps.",
+    "note": "Trusted: the driver's key/value universe and owner enumeration; the stored state is measured by reflection over the private propertyImpl/valueProperty chain -- if that representation changes the check stops with exit 2 (it cannot measure the growth clause) rather than accept silently. Histories beyond the bounds are sampled.",
     "technique": MBT,
 }
 CHECKS["C13"] = {
@@ -71,8 +71,8 @@ CHECKS["C08"] = {
     "technique": MBT,
 }
 CHECKS["C09"] = {
-    "text": "Every build history of the bounded grid model (all interleavings of the table-building calls: no rows, no header, empty header, zero-cell and ragged rows, rows extended after attach, separators anywhere), a second bounded model with items whose declared height/width disagree with their text, TLC -simulate walks of depth 30-40 and random longer sequences are each executed on the real library and followed by every renderer x every registered decoration (plus an unknown name and a custom one) x every entry point (method Render/RenderTo, package functions, auto.Render for every listed style) under recover; TLC validates for every call: no panic, and an error comes with empty text.",
-    "note": "Trusted: recover() in the driver as the panic detector. Exhaustive only within the bounds; longer histories are sampled.",
+    "text": "Every build history of the bounded grid model (all interleavings of the table-building calls: no rows, no header, empty header, zero-cell and ragged rows, rows extended after attach, separators anywhere), a second bounded model with items whose declared height/width disagree with their text, TLC -simulate walks of depth 30-40 and random longer sequences are each executed on the real library and followed by every renderer x every registered decoration (plus an unknown name and a custom one) x every entry point (method Render/RenderTo, package functions, auto.Render for every listed style) under recover; TLC validates for every call: no panic, and an error comes with empty text. Declared sizes include negative ones and the largest int (the latter is known finding D20: the text and markdown renderers panic; printed as KNOWN-FINDING).",
+    "note": "Trusted: recover() in the driver as the panic detector (a panic raised by the driver's own code is told apart by its stack and stops the check with exit 2). Declared sizes between a few thousand and the largest int are not generated (they exhaust memory rather than panic). Exhaustive only within the bounds; longer histories are sampled.",
     "technique": MBT,
 }
 CHECKS["C10"] = {
@@ -81,8 +81,8 @@ CHECKS["C10"] = {
     "technique": MBT,
 }
 CHECKS["C14"] = {
-    "text": "Render is modelled as leaving the table state unchanged (TLC checks the action property RenderPure on all bounded sequences of wraps and renders); sequences of up to 3 renders over all formats/decorations through the same, a fresh or a nested wrapper (exhaustive in the bounded model) and random sequences of 3-12 renders are executed on the real library; after every step TLC compares the full grid, text, property and error projections with the unchanged model state, and the driver logs for every render whether its bytes equal the first render of that (content, format, decoration, options).",
-    "note": "Trusted: first-output bookkeeping in the driver. User callbacks are not registered in this family (excluded by the statement).",
+    "text": "Render is modelled as leaving the table state unchanged (TLC checks the action property RenderPure on all bounded sequences of wraps and renders); sequences of up to 3 renders over all formats/decorations through the same, a fresh or a nested wrapper (exhaustive in the bounded model) and random sequences of 3-12 renders are executed on the real library; after every step TLC compares the full grid, text, property and error projections with the unchanged model state, and the driver logs for every render whether its bytes equal the first render of that (table content, format, decoration, options) -- wrapping, re-decorating and option changes do not start a new comparison -- and whether they equal what a brand-new wrapper of that format and decoration gives for the same table.",
+    "note": "Trusted: first-output bookkeeping in the driver. User callbacks are not registered in this family (the driver's recording callbacks set a mark property, i.e. they mutate: excluded by the statement).",
     "technique": MBT,
 }
 CHECKS["C15"] = {
@@ -92,17 +92,17 @@ CHECKS["C15"] = {
     "technique": "TLA+ writer-fault model + exhaustive fault-point enumeration on the real renderers, validated by TLC",
 }
 CHECKS["C16"] = {
-    "text": "Design level: Concurrent.tla models N owners with private state stepping in any interleaving while the shared registry is extended; TLC checks that each owner's outputs equal those of its solo run (no variable is shared). Binding: every scenario (random creation paths, wrapper nestings, render sequences over all formats and decorations) first runs alone, then the same scenarios run on goroutines of their own (16-64 at a time, several rounds, seeded scheduling jitter) while another goroutine reads and extends the decoration registry; the driver is built with Go's race detector; each goroutine's log is validated by TLC as a trace of the sequential specification (full structural relations of every render) and every render's bytes are compared with the solo run's.",
+    "text": "Design level: Concurrent.tla models N owners with private state stepping in any interleaving while the shared registry is extended; TLC checks that each owner's outputs equal those of its solo run (no variable is shared). Binding: every scenario (random creation paths, wrapper nestings, render sequences over all formats and decorations) runs on a goroutine of its own (16-64 at a time, several rounds, seeded scheduling jitter) while another goroutine reads and extends the decoration registry, and only afterwards alone in a fresh world (so that the concurrent rounds meet every lazily initialised package-level value first); the driver is built with Go's race detector; each goroutine's log is validated by TLC as a trace of the sequential specification (full structural relations of every render) and every render's bytes are compared with the solo run's.",
     "note": "Trusted: Go's race detector for the 'free of data races' clause (a data race leaves no trace event; reports count only with a library frame); byte comparison with the solo run in the driver. Interleavings are sampled by the Go scheduler, not enumerated.",
     "technique": "TLA+ design model (no shared state) + concurrent replay under the race detector with per-goroutine TLC trace validation",
 }
 CHECKS["C17"] = {
-    "text": "Registry.tla models every operation as lock / body / unlock steps; TLC explores all interleavings of 3 processes x 2 operations over several program sets and checks mutual exclusion, that every lookup/listing is the answer of the sequential registry at its own body step, lookup soundness and the final state (last body-ordered registration wins, listing complete). Binding: the verif-build hook fires inside the critical section and stamps the order in which operations took effect; all 270 linearization orders produced by the model are forced onto the real registry from separate goroutines, free-running stress (8-16 goroutines) runs under the race detector, and a probe holds one operation inside its critical section while a second must stay blocked; RegistryTrace.tla validates every lookup and listing (sorted, duplicate-free, complete) against the sequential registry in hook order. The fail-closed clause is validated on sequential scenarios (registered, overwritten, built-in, unknown, case-variant names; SetDecorationNamed error and Render refusal).",
-    "note": "Trusted: the hook order (counter written under the registry's own lock), Go's race detector, a 40 ms timer that can only miss (never invent) a mutual-exclusion violation. Free-running interleavings are sampled.",
-    "technique": "TLA+ lock/body/unlock model checked by TLC + hook-ordered trace validation of forced, stress and probe runs under the race detector",
+    "text": "Registry.tla models every operation as lock / body / unlock steps (a readers/writer lock); TLC explores all interleavings of 3 processes x 2 operations over several program sets and checks mutual exclusion, that every lookup/listing is the answer of the sequential registry at its own body step, lookup soundness and the final state (last body-ordered registration wins, listing complete); thorough adds a TLAPS proof of mutual exclusion for any number of processes and an Apalache inductive invariant. Binding: nothing inside the library is instrumented. Every linearization order produced by the model is run on the real registry from separate goroutines taking turns (sequential histories: the latest registration must win exactly); free-running stress (8-16 goroutines registering, overwriting, looking up and listing 4 names, plus auto.ListStyles) runs under the race detector and ends with a quiescent read-back. The driver logs a call line and a return line per operation, stamped by one atomic clock; RegistryTrace.tla validates that log knowing only this real-time order: a lookup returns a decoration registered under that name by a registration that had begun before the lookup returned and was not already overwritten when the lookup was called (the empty decoration only while no registration of the name has returned); a listing is sorted, duplicate-free, holds every name whose registration returned before it was called and every built-in, and nothing that was not at least being registered. The fail-closed clause is validated on sequential scenarios (registered, overwritten, built-in, unknown, case-variant names; SetDecorationNamed error and Render refusal); an override of a built-in made before the registry is first read must stick.",
+    "note": "Trusted: Go's race detector and the runtime's concurrent-map abort for the data-race clause (reports count only with a library frame); the driver's atomic clock for the real-time order. The oracle asks for what the statement promises and no more (a mutex, a readers/writer lock, a copy-on-write map and sync.Map all pass: seeded/equiv). Free-running interleavings are sampled.",
+    "technique": "TLA+ lock/body/unlock model checked by TLC (+ TLAPS/Apalache) ; model linearization orders replayed on the real registry; call/return trace validation (regular-register specification) of forced and stress runs under the race detector",
 }
 CHECKS["C19"] = {
-    "text": "Style-string resolution (case-insensitive sub-package section, texttable[.NAME], bare NAME, registered names win as a whole, unknown names give the empty decoration) is a TLA+ operator over the registry state; TLC enumerates registry states reachable by registering up to two extra names (ordinary, dotted, case variants, colliding with csv / CSV / texttable) crossed with every style string built from the listed names (upper case, texttable. prefix, trailing sections) plus the listing, checking that every listed name resolves to something that renders and that texttable.NAME = NAME; every case and random registries/styles run on the real library (one process per registry history) and TLC validates the dynamic type, the decoration identity, render status, and the listing (sorted, complete, every listed name renders).",
+    "text": "Style-string resolution (case-insensitive sub-package section, texttable[.NAME], bare NAME, registered names win as a whole, unknown names give the empty decoration) is a TLA+ operator over the registry state; TLC enumerates registry states reachable by registering up to two extra names (ordinary, dotted, case variants, colliding with csv / CSV / texttable) crossed with every style string built from the listed names (upper case, texttable. prefix, trailing sections) plus the listing, checking that every listed name resolves to something that renders and that texttable.NAME = NAME; every case and random registries/styles run on the real library (one process per registry history) and TLC validates the dynamic type, the decoration identity, render status, and the listing (sorted, complete, every listed name renders). The listing is also exercised under concurrency: hundreds of bursts of registrations while two goroutines call ListStyles, after each of which the listing must show every registered name (RegistryTrace.tla, race detector on).",
     "note": "Trusted: reflection read of the wrapper's decoration; built-in names/default decoration are logged inputs. Where the statement is silent (unregistered NAME followed by sections) only consistency is demanded.",
     "technique": MBT,
 }
